@@ -2,4 +2,5 @@
 # run every property's quick (or $1=thorough) check, 4 at a time; print the verdict lines
 cd "$(dirname "$0")/.."
 tier=${1:-quick}
-for i in $(seq -w 1 20); do echo C$i; done | xargs -P 4 -I{} sh -c "bin/check {} --tier $tier > /tmp/sweep_{}.log 2>&1; echo {} rc=\$? \$(grep -E '^(OK|VIOLATION|KNOWN-FINDING|INCONCLUSIVE)' /tmp/sweep_{}.log | head -3)"
+extra=""; if [ -n "${WW_REPO:-}" ]; then extra="--outdir /var/tmp/sweep_out"; fi   # never overwrite /verif/evidence with a run on a scratch copy
+for i in $(seq -w 1 20); do echo C$i; done | xargs -P 4 -I{} sh -c "bin/check {} --tier $tier $extra > /tmp/sweep_{}.log 2>&1; echo {} rc=\$? \$(grep -E '^(OK|VIOLATION|KNOWN-FINDING|INCONCLUSIVE)' /tmp/sweep_{}.log | head -3)"
